@@ -183,6 +183,13 @@ theorem productive_steps_bounded (alg : Alg V A) (a0 : A) (N maxRetries maxConse
     Live.productiveCount alg ⟨init (V := V) a0 (some N) maxRetries maxConsec, [], false⟩ as ≤ 2 * (N * (maxRetries + 1)) :=
   Live.productive_bounded alg a0 N maxRetries maxConsec as
 
+/-- … the same for grid search without a trial limit, the finite grid being the budget: at most
+`2 · |grid| · (max_retries + 1)` productive steps along every interleaving … -/
+theorem grid_productive_steps_bounded (space : List GridSucc.GHP) (hs : Grid.SpaceOK space) (as : List Live.Act) :
+    Live.productiveCount Grid.alg ⟨Grid.init space, [], false⟩ as ≤
+      2 * ((GridSucc.enum space []).length * ((Grid.init space).maxRetries + 1)) :=
+  Live.grid_productive_bounded space hs as
+
 /-- … STOPPED is answered to each worker at most once … -/
 theorem stopped_once (alg : Alg V A) (s : Live.Sys V A) (a : Live.Act) (hn : s.stopped.Nodup) :
     (Live.sstep alg s a).stopped.Nodup := Live.stopped_nodup_step alg s a hn
